@@ -313,7 +313,7 @@ impl Sym {
             Some(h) => format!("(Some {})", self.term(h)),
         };
         let body = format!(
-            "mkTx {} {} {} {} {} {} {} {} {} {}",
+            "mkTx {} {} {} {} {} {} {} {} {} {} {}",
             t.transaction_type as u8,
             t.txs_replacements,
             sig,
@@ -322,6 +322,7 @@ impl Sym {
             gal::nlist(&from),
             gal::nlist(&to),
             rest,
+            t.data.len(),
             chash,
             hfs
         );
@@ -749,6 +750,21 @@ impl Ctx {
                 s.nontrivial += 1;
             }
         }
+        if !use_oracle {
+            // C18_header_fields holds for every block: every header field but merkle_root, and the
+            // hash field, are those of the block served
+            if let Some(l) = ev.lite.ok() {
+                let hf = header_fields(full);
+                for (i, (name, v)) in header_fields(l).iter().enumerate() {
+                    if *name != "merkle_root" && *v != hf[i].1 {
+                        s.oracle_failure(case, &format!("lite block header field {} differs from the block served", name), &desc);
+                    }
+                }
+                if l.hash != full.hash {
+                    s.oracle_failure(case, "lite block hash field differs from the block served", &desc);
+                }
+            }
+        }
         if use_oracle {
             for (id, what) in oracle(full, ks, &ev, ref_root) {
                 if id.is_empty() {
@@ -922,6 +938,11 @@ fn synthetic_block(rng: &mut Rng, ntx: usize) -> (Block, Vec<SaitoPublicKey>) {
         }
         if rng.chance(1, 3) {
             t.data = vec![rng.below(256) as u8; rng.below(5) as usize];
+        }
+        if ty == TransactionType::GoldenTicket && !rng.chance(1, 5) {
+            // a GoldenTicket-typed transaction decodes only with a 97-byte payload (fix eeb4ec7);
+            // one in five keeps a malformed payload: the wire trip must then fail in model and code
+            t.data = (0..97).map(|_| rng.below(256) as u8).collect();
         }
         if unhashed && rng.chance(1, 4) {
             t.hash_for_signature = None;
@@ -1107,6 +1128,67 @@ async fn main() {
                 }
                 ctx.run(kind, name, &full, &ks, true);
             }
+        }
+    }
+
+    // ------------------------------------------------------------ real blocks under other headers
+    // Chain blocks of a young chain have many equal header fields (no rebroadcast fees yet:
+    // avg_total_fees = avg_total_fees_new, ...).  Here every numeric header field of a real block
+    // gets its own value and Block::generate recomputes the identity, so a lite block that copies
+    // a field from the wrong source no longer hashes to the block it was made from.
+    for (bi, (name, stored)) in blocks.iter().enumerate() {
+        if !(name.starts_with("chain") && bi % 3 == 1) && bi != 4 {
+            continue;
+        }
+        let bytes = stored.serialize_for_net(BlockType::Full);
+        let mut full = Block::deserialize_from_net(&bytes).expect("deserialize");
+        let base = rng.range(1_000, 900_000);
+        let mut k = 0u64;
+        let mut next = || {
+            k += 1;
+            base + 7919 * k
+        };
+        full.timestamp = next();
+        full.graveyard = next();
+        full.treasury = next();
+        full.total_fees = next();
+        full.total_fees_new = next();
+        full.total_fees_atr = next();
+        full.total_fees_cumulative = next();
+        full.avg_total_fees = next();
+        full.avg_total_fees_new = next();
+        full.avg_total_fees_atr = next();
+        full.total_payout_routing = next();
+        full.total_payout_mining = next();
+        full.total_payout_treasury = next();
+        full.total_payout_graveyard = next();
+        full.total_payout_atr = next();
+        full.avg_payout_routing = next();
+        full.avg_payout_mining = next();
+        full.avg_payout_treasury = next();
+        full.avg_payout_graveyard = next();
+        full.avg_payout_atr = next();
+        full.avg_fee_per_byte = next();
+        full.fee_per_byte = next();
+        full.avg_nolan_rebroadcast_per_block = next();
+        full.burnfee = next();
+        full.difficulty = next();
+        full.previous_block_unpaid = next();
+        full.generate().expect("generate");
+        let nm = format!("{} with distinct header values from {}", name, base);
+        let first_to: Vec<SaitoPublicKey> = full
+            .transactions
+            .iter()
+            .filter(|t| t.transaction_type == TransactionType::Normal)
+            .map(|t| t.to[0].public_key)
+            .collect();
+        let mut lists: Vec<Vec<SaitoPublicKey>> = vec![vec![], vec![node.pk]];
+        if !first_to.is_empty() {
+            lists.push(first_to.clone());
+            lists.push(first_to.iter().step_by(2).cloned().collect());
+        }
+        for ks in lists {
+            ctx.run("chain-reheadered", &nm, &full, &ks, true);
         }
     }
 
